@@ -170,7 +170,7 @@ def compare(case, io, mo):
         pred, gaps = C.tofloat(mo[0]), C.tofloat(mo[1])
         amb = False
         for x, y, g in zip(io, pred, gaps):
-            if abs(x - y) > 1e-9 * max(1.0, abs(y)):
+            if not (abs(x - y) <= 1e-9 * max(1.0, abs(y))):
                 if g is not None and abs(g) <= 1e-9:
                     amb = True
                     continue
@@ -180,7 +180,7 @@ def compare(case, io, mo):
         sq = C.tofloat(mo)
         for x, row in zip(io, sq):
             med = float(np.median(np.sqrt(np.array(row))))
-            if abs(x - med) > 1e-9 * max(1.0, med):
+            if not (abs(x - med) <= 1e-9 * max(1.0, med)):
                 return f"diff:median distance {x} vs {med}"
         return "ok"
     mask, margins = C.tofrac(mo[0]), C.tofloat(mo[1])
@@ -207,7 +207,7 @@ def oracle(case, io):
                 continue
             vals = [data[i] for _, i in d2[:k]]
             exp = float(REDS[red](np.array(vals)))
-            if abs(io[t] - exp) > 1e-9 * max(1.0, abs(exp)):
+            if not (abs(io[t] - exp) <= 1e-9 * max(1.0, abs(exp))):
                 return f"query {t} = ({x}, {y}): got {io[t]} but the {red} of the {k} closest data values {vals} is {exp}"
         return None
     if fn == "md":
@@ -215,7 +215,7 @@ def oracle(case, io):
         for t, (x, y) in enumerate(zip(es, ns)):
             d = sorted(math.sqrt(float((C.fq(x) - C.fq(e)) ** 2 + (C.fq(y) - C.fq(n)) ** 2)) for i, (e, n) in enumerate(zip(es, ns)) if i != t)
             exp = float(np.median(d[:k]))
-            if abs(io[t] - exp) > 1e-9 * max(1.0, exp):
+            if not (abs(io[t] - exp) <= 1e-9 * max(1.0, exp)):
                 return f"point {t}: median distance {io[t]} but the median distance to its {k} nearest other points is {exp}"
         return None
     es, ns, maxdist, qe, qn, shape2d, proj, grid = a
